@@ -6,4 +6,10 @@ JOBS = [
       contracts=["heap.h"], defines=_D, loops=False, replace=["strnlen", "memcpy"], timeout=1200, cost=20,
       trust=["strnlen, memcpy: assumed contracts (contracts/libc.h)"],
       what="store or refuse: frame (nothing outside the allocated bytes changes), text integrity (witness byte), NUL after the text, reads of the source stay inside its n bytes"),
+ dict(name="heap.scpiheap_get_parts", props=["C20", "C01"], kind="P", harness="h_heap.c", entry="h_scpiheap_get_parts", enforce="scpiheap_get_parts",
+      contracts=["heap.h"], defines=_D, loops=False, replace=["strnlen"], timeout=1200, cost=10, trust=["strnlen: assumed contract (contracts/libc.h)"],
+      what="the one or two parts of a stored text: first part never empty and inside the ring, second part only after a wrap and ends before the ring's NUL"),
+ dict(name="heap.scpiheap_free", props=["C20", "C01", "C10"], kind="P", harness="h_heap.c", entry="h_scpiheap_free", enforce="scpiheap_free",
+      contracts=["heap.h"], defines=_D, loops=False, replace=["scpiheap_get_parts"], timeout=1200, cost=20, trust=["memset: CBMC library model (array_set / array_replace, no loop)"],
+      what="release: exactly the text's bytes (following the wrap-around) become NUL and are accounted, nothing else changes, write position rule; no access outside the ring for ANY ring content that contains a NUL"),
 ]
